@@ -2,14 +2,14 @@
 SPECIFICATION Spec
 CONSTANTS
   Peers = {"p1"}
-  LocalLevels = {0, 40, 75, 100}
+  LocalLevels = {0, 40, 100}
   PeerLevels = {0, 100}
-  Sources = {"incoming", "mixed"}
+  Sources = {"mixed"}
   ModeNames = {"never", "monitor", "always"}
   Thresholds <- ThTwo
   MinDurs = {0, 2}
-  Timeout = 2
-  AdvSteps = {1, 2, 3}
+  Timeout = 1
+  AdvSteps = {1, 3}
   HoldStrict = TRUE
   ExpiryClosed = FALSE
   Faithful = TRUE
